@@ -48,27 +48,31 @@ type Explorer struct {
 	Ring     bool
 
 	// results
-	Paths        int
-	Forks        int
-	Failures     []Failure
-	Incon        []Inconclusive
-	AssertsTotal int
-	AssertsTriv  int
-	AssertsSMT   int
-	Reached      map[string]int // label -> times reached on a feasible path
-	Funcs        map[string]int
-	Steps        int
-	Assumptions  map[string]bool
-	Stubs        map[string]int
-	SymNames     []string
-	Observed     []string // concrete-mode observations
-	PanicsSeen   []string
-	RingUsed     bool
-	SymKinds     map[string]string   // symbol name -> "bv<w>s" / "bv<w>u" / "f32" / "f64" / "bool"
-	SymRanges    map[string][2]int64 // symbols created through IntIn/Int64In
-	World        *World
-	NoMerge      bool
-	work         [][]uint64
+	Paths            int
+	Forks            int
+	Failures         []Failure
+	Incon            []Inconclusive
+	AssertsTotal     int
+	AssertsTriv      int
+	AssertsSMT       int
+	Reached          map[string]int // label -> times reached on a feasible path
+	Funcs            map[string]int
+	Steps            int
+	Assumptions      map[string]bool
+	Stubs            map[string]int
+	SymNames         []string
+	Observed         []string // concrete-mode observations
+	PanicsSeen       []string
+	RingUsed         bool
+	OneShotTimeoutMs int
+	OneShotQueries   int
+	OneShotDecided   int
+	OneShotTime      time.Duration
+	SymKinds         map[string]string   // symbol name -> "bv<w>s" / "bv<w>u" / "f32" / "f64" / "bool"
+	SymRanges        map[string][2]int64 // symbols created through IntIn/Int64In
+	World            *World
+	NoMerge          bool
+	work             [][]uint64
 }
 
 type Ctx struct {
@@ -204,20 +208,134 @@ func (c *Ctx) assume(t *smt.Term) {
 }
 
 func (c *Ctx) check(extra ...*smt.Term) smt.Result {
-	for _, x := range extra {
-		if x.IsConst() && !x.BoolVal() {
-			return smt.Unsat
-		}
-	}
+	r, _ := c.solve(false, extra...)
+	return r
+}
+
+// solve checks pc + extra: first in the incremental session, then (on unknown)
+// as a one-shot script in fresh solver processes (portfolio).
+func (c *Ctx) solve(wantModel bool, extra ...*smt.Term) (smt.Result, smt.Model) {
 	if c.Sol == nil {
 		panic(c.abort("symbolic query in concrete mode"))
 	}
-	r, err := c.Sol.CheckWith(extra...)
+	// unit propagation: literals asserted at top level simplify the other assertions
+	if len(extra) > 1 {
+		for round := 0; round < 3; round++ {
+			known := map[int64]bool{}
+			changed := false
+			for i, x := range extra {
+				others := append(append([]*smt.Term{}, extra[:i]...), extra[i+1:]...)
+				for k := range known {
+					delete(known, k)
+				}
+				c.St.Units(others, known)
+				nx := c.St.ReplaceAtoms(x, known)
+				if nx != x {
+					extra = append(append(append([]*smt.Term{}, extra[:i]...), nx), extra[i+1:]...)
+					changed = true
+				}
+			}
+			if !changed {
+				break
+			}
+		}
+	}
+	for _, x := range extra {
+		if x.IsConst() && !x.BoolVal() {
+			return smt.Unsat, nil
+		}
+	}
+	// a top-level disjunction is decided disjunct by disjunct (each query is much smaller)
+	for i, x := range extra {
+		var disj []*smt.Term
+		if x.Op == smt.OOr {
+			disj = x.Args
+		} else if x.Op == smt.ONot && x.Args[0].Op == smt.OAnd {
+			for _, a := range x.Args[0].Args {
+				disj = append(disj, c.St.Not(a))
+			}
+		}
+		if len(disj) <= 256 && len(disj) > 1 {
+			rest := append(append([]*smt.Term{}, extra[:i]...), extra[i+1:]...)
+			unknown := false
+			for _, d := range disj {
+				r, m := c.solve1(wantModel, append(append([]*smt.Term{}, rest...), d)...)
+				if r == smt.Sat {
+					return r, m
+				}
+				if r == smt.Unknown {
+					unknown = true
+				}
+			}
+			if unknown {
+				return smt.Unknown, nil
+			}
+			return smt.Unsat, nil
+		}
+	}
+	return c.solve1(wantModel, extra...)
+}
+
+func (c *Ctx) solve1(wantModel bool, extra ...*smt.Term) (smt.Result, smt.Model) {
+	for _, x := range extra {
+		if x.IsConst() && !x.BoolVal() {
+			return smt.Unsat, nil
+		}
+	}
+	hard := false
+	for _, x := range extra {
+		if c.St.HasOp(x, smt.OFPDiv) {
+			hard = true
+		}
+	}
+	var err error
+	r := smt.Unknown
+	if !hard {
+		c.Sol.Push()
+		for _, x := range extra {
+			c.Sol.Assert(x)
+		}
+		r, err = c.Sol.Check()
+		if err == nil && r == smt.Sat && wantModel {
+			m, merr := c.Sol.GetModel(c.named)
+			c.Sol.Pop()
+			if merr != nil {
+				c.E.Incon = append(c.E.Incon, Inconclusive{What: "model: " + merr.Error(), Site: c.where()})
+				return smt.Unknown, nil
+			}
+			return smt.Sat, m
+		}
+		c.Sol.Pop()
+		if err == nil && r != smt.Unknown {
+			return r, nil
+		}
+	}
+	// escalate: one-shot scripts in fresh solver processes
+	asserts := append(append([]*smt.Term{}, c.pc...), extra...)
+	var syms []*smt.Term
+	if wantModel {
+		syms = c.named
+	}
+	for _, name := range []string{"z3", "z3-new", "cvc5"} {
+		tmo := c.E.OneShotTimeoutMs
+		if tmo == 0 {
+			tmo = 30000
+		}
+		r2, m, dt, err2 := smt.OneShot(smt.Backends[name], c.St, asserts, syms, tmo)
+		c.E.OneShotQueries++
+		c.E.OneShotTime += dt
+		if err2 != nil {
+			continue
+		}
+		if r2 != smt.Unknown {
+			c.E.OneShotDecided++
+			return r2, m
+		}
+	}
 	if err != nil {
 		c.E.Incon = append(c.E.Incon, Inconclusive{What: "solver: " + err.Error(), Site: c.where()})
-		return smt.Unknown
 	}
-	return r
+	return smt.Unknown, nil
 }
 
 // branch decides a symbolic If.
@@ -415,22 +533,15 @@ func (c *Ctx) getModel() (smt.Model, bool) {
 // known-finding regions and looks for a witness outside them.
 func (c *Ctx) violated(label string, neg *smt.Term, detail string, pmsg string) {
 	st := c.St
-	// first model
-	c.Sol.Push()
+	var ex []*smt.Term
 	if neg != nil {
-		c.Sol.Assert(neg)
+		ex = append(ex, neg)
 	}
-	r, _ := c.Sol.Check()
+	r, m := c.solve(true, ex...)
 	if r != smt.Sat {
-		c.Sol.Pop()
 		if r == smt.Unknown {
 			c.E.Incon = append(c.E.Incon, Inconclusive{What: "assertion " + label + ": solver unknown", Site: c.where()})
 		}
-		return
-	}
-	m, ok := c.getModel()
-	c.Sol.Pop()
-	if !ok {
 		return
 	}
 	var inRegions []string
@@ -458,27 +569,18 @@ func (c *Ctx) violated(label string, neg *smt.Term, detail string, pmsg string) 
 	if neg != nil {
 		extra = append(extra, neg)
 	}
-	c.Sol.Push()
-	for _, x := range extra {
-		c.Sol.Assert(x)
-	}
-	r2, _ := c.Sol.Check()
+	r2, m2 := c.solve(true, extra...)
 	if r2 == smt.Sat {
-		m2, ok := c.getModel()
-		c.Sol.Pop()
-		if ok {
-			var reg2 []string
-			for _, rg := range c.regions {
-				v := st.Subst(rg.cond, m2, true)
-				if v.IsConst() && v.BoolVal() {
-					reg2 = append(reg2, rg.name)
-				}
+		var reg2 []string
+		for _, rg := range c.regions {
+			v := st.Subst(rg.cond, m2, true)
+			if v.IsConst() && v.BoolVal() {
+				reg2 = append(reg2, rg.name)
 			}
-			c.E.Failures = append(c.E.Failures, Failure{Label: label, Site: c.where(), Detail: detail, Model: c.modelStrings(m2), Regions: reg2, Prefix: append([]uint64{}, c.taken...), PanicMsg: pmsg})
 		}
+		c.E.Failures = append(c.E.Failures, Failure{Label: label, Site: c.where(), Detail: detail, Model: c.modelStrings(m2), Regions: reg2, Prefix: append([]uint64{}, c.taken...), PanicMsg: pmsg})
 		return
 	}
-	c.Sol.Pop()
 	if r2 == smt.Unknown {
 		c.E.Incon = append(c.E.Incon, Inconclusive{What: "assertion " + label + " outside known regions: solver unknown", Site: c.where()})
 	}
@@ -500,20 +602,7 @@ func (c *Ctx) assertCond(label string, cond *smt.Term, detail string) {
 		panic(c.abort("non-constant assertion in concrete mode: %s", label))
 	}
 	e.AssertsSMT++
-	neg := c.St.Not(cond)
-	r := c.check(neg)
-	switch r {
-	case smt.Unsat:
-	case smt.Unknown:
-		e.Incon = append(e.Incon, Inconclusive{What: "assertion " + label + ": solver unknown/timeout", Site: c.where()})
-	case smt.Sat:
-		c.violated(label, neg, detail, "")
-		// continue under the assumption that the assertion holds, if possible
-		if c.check(cond) == smt.Unsat {
-			panic(pathEnd{})
-		}
-	}
-	c.assume(cond)
+	c.violated(label, c.St.Not(cond), detail, "")
 }
 
 func (c *Ctx) reportPanic(p *PanicV) {
